@@ -82,6 +82,12 @@ def Body.check (b : Body) : Body × Option Err :=
      some .tooMuchData)
   else (b, none)
 
+/-- the part of `body.Read` after `str.Read` returned `(d, eo)`: the second violation check -/
+def Body.afterRead (b2 : Body) (d : List Nat) (eo : Option Err) : Body × List Nat × Option Err :=
+  match b2.check with
+  | (b3, some e) => (b3, d, some e)
+  | (b3, none) => (b3, d, eo.map maybeReplaceError)
+
 /-- `body.Read(p)` with `len p = n` -/
 def Body.read (b : Body) (n : Nat) : Body × List Nat × Option Err :=
   match b.check with
@@ -90,9 +96,7 @@ def Body.read (b : Body) (n : Nat) : Body × List Nat × Option Err :=
     let n' := if b1.hasCL then min n b1.remainingCL.toNat else n
     let r := b1.str.m.read n'
     let b2 : Body := { b1 with str := { b1.str with m := r.1 }, remainingCL := b1.remainingCL - r.2.1.length }
-    match b2.check with
-    | (b3, some e) => (b3, r.2.1, some e)
-    | (b3, none) => (b3, r.2.1, r.2.2.map maybeReplaceError)
+    b2.afterRead r.2.1 r.2.2
 
 /-- body reads of the given sizes until the first error -/
 def Body.readMany (b : Body) : List Nat → Body × List Nat × Option Err
